@@ -404,7 +404,7 @@ template<class T> static void run_type() {
       int n = 0;
       for (auto& psi : PSI) for (int ai = 0; ai < NAXES; ++ai) for (auto& sp : SP) {
           ++n;
-          if (!g_thorough && (n % 4) != 1) continue;
+          if (!g_thorough && (n % 8) != 1) continue;
           if (g_thorough && (n % 2) != 1) continue;
           int a = sp[0], m = sp[1];
           IQ base = BASES[n % NBASES];
